@@ -94,7 +94,7 @@ func main() {
 }
 
 func run(r *report.Run, shard, nshards int, replayFile string) {
-	r.Rule = "two BFS scenarios on the real handlers. A: Send/EndBlk50 (batch build)/EstimateQuorum (3 estimates + skyway end-blocker: election re-issues the checkpoint)/Confirm(v,batch) (genuine signature over the stored BytesToSign)/EndBlkLate (timeout)/ExecutedQuorum/Evidence(by, checkpoint, signer) with (checkpoint, signer) over every published checkpoint x every validator that signed it, and over never-published checkpoints (mutated amount; mutated gas estimate) x every validator key and an outsider key. B: Exec (job -> turnstone message)/EstimateQuorum/ErrorData/PublicData/Ev(v,proof) for every validator/Prune (consensus module end-blocker at h = 0 mod 50, message older than 300 blocks). A state is distinct by (skyway store | consensus store, staking jailed flags, ghost)"
+	r.Rule = "two BFS scenarios on the real handlers. A: Send/EndBlk50 (batch build)/EstimateQuorum (3 estimates + skyway end-blocker: election re-issues the checkpoint)/Confirm(v,batch) (genuine signature over the stored BytesToSign)/EndBlkLate (timeout)/ExecutedQuorum/Evidence(by, checkpoint, signer) with (checkpoint, signer) over every published checkpoint x every validator that signed it, and over never-published checkpoints (mutated amount; mutated gas estimate) x every validator key and an outsider key. B: Exec (job -> turnstone message)/EstimateQuorum/ErrorData/PublicData/Ev(v,proof) for every validator/ReEv(v,proof) (a validator that already attested re-submits the same or a corrected proof; at most 1 per history, thorough 2)/Prune (consensus module end-blocker at h = 0 mod 50, message older than 300 blocks). A state is distinct by (skyway store | consensus store, staking jailed flags, ghost)"
 	r.Assumptions = []string{
 		"'published checkpoint' = every value the stored BytesToSign of any open batch took, sampled by the ghost after every operation together with the batch as it was then (the evidence subject)",
 		"a validator's signature over a published checkpoint becomes available to the accuser when the validator submits it (Confirm op, whether or not the chain accepts the confirm); signatures over never-published checkpoints are produced with the real keys directly (that is the misbehaviour the handler exists for)",
@@ -103,7 +103,7 @@ func run(r *report.Run, shard, nshards int, replayFile string) {
 		"quorum operations (estimates, claims) are macros of three validator messages + skyway end-blocker (vote interleavings are C02's subject)",
 		"scenario B prunes with the consensus module's own EndBlock (estimates, attestation, PruneOldMessages(300) at h%50==0) and not the whole module manager, so keep-alive jailing of x/valset (C12) cannot be confused with prune-time jailing; the blocks between hand-in of evidence and the prune height are empty",
 		"'fewer than 10% attested' is read as 10*shares(evidence suppliers in the snapshot) < total snapshot shares; at exactly 10% the property does not constrain jailing of non-suppliers",
-		"shares of suppliers are taken from the genesis stakes and cross-checked against the current snapshot",
+		"shares of suppliers are taken from the genesis stakes and cross-checked against the current snapshot; 'shares that attested' are the shares of the DISTINCT validators whose evidence the chain accepted (a validator re-submitting evidence attests once)",
 		"scenario B hands evidence in in ascending validator order, each validator once with proof A or (v2 and the last validator; thorough: all) the dissenting proof B: the prune-time code reads the evidence as a set (address look-ups, share sums, grouping by proof hash), so other hand-in orders reach the same decisions",
 		"validators with more than 25% of the bonded power (the last validator of each scenario-B stake vector) cannot be jailed by x/valset at all; the others are jailable",
 		"scenario B runs once per stake vector (totals 30 000 000, 30 000 009 and 19 000 001 shares; a snapshot share is a bonded token and a bonded validator needs at least 10^6, so smaller totals are unreachable), one worker process each; the 10% rule is evaluated literally with big integers: nobody may be jailed when 10*votes < total",
@@ -557,6 +557,7 @@ type ghostB struct {
 	Supplied  []string // per validator: "", "A", "B"
 	Pruned    bool
 	Estimated bool
+	Resubs    int // re-submissions of evidence so far
 }
 
 func (g *ghostB) Clone() explore.Ghost {
@@ -568,14 +569,15 @@ func (g *ghostB) Clone() explore.Ghost {
 func (g *ghostB) Key() string { b, _ := json.Marshal(g); return string(b) }
 
 type envB struct {
-	w        *world.World
-	r        *report.Run
-	queue    string
-	user     *world.Actor
-	bFor     map[int]bool // validators that may also supply the dissenting proof B
-	consensu appmodule.HasEndBlocker
-	stakes   []int64
-	name     string
+	w         *world.World
+	r         *report.Run
+	queue     string
+	user      *world.Actor
+	bFor      map[int]bool // validators that may also supply the dissenting proof B
+	consensu  appmodule.HasEndBlocker
+	stakes    []int64
+	name      string
+	maxResubs int
 }
 
 func specB(r *report.Run, name string, stakesB []int64) explore.Spec {
@@ -594,10 +596,12 @@ func specB(r *report.Run, name string, stakesB []int64) explore.Spec {
 		panic("consensus module has no end-blocker")
 	}
 	e := &envB{w: w, r: r, queue: world.TurnstoneQueue(ref), user: u, consensu: mod, stakes: stakesB, name: name, bFor: map[int]bool{2: true, len(stakesB) - 1: true}}
+	e.maxResubs = 1
 	if r.Thorough() {
 		for i := range w.Vals {
 			e.bFor[i] = true
 		}
+		e.maxResubs = 2
 	}
 	// cross-check the fractions against the live snapshot
 	snap, err := w.App.ValsetKeeper.GetCurrentSnapshot(ctx)
@@ -620,7 +624,7 @@ func specB(r *report.Run, name string, stakesB []int64) explore.Spec {
 		Hash: func(n *explore.Node) string {
 			return n.Ghost.Key() + "|" + w.StoreDigest(n.Ctx, ctypes.StoreKey) + "|" + flagString(jailed(w, n.Ctx))
 		},
-		MaxDepth: 11, Deadline: r.Deadline(140*time.Second, 25*time.Minute),
+		MaxDepth: 13, Deadline: r.Deadline(140*time.Second, 25*time.Minute),
 	}
 }
 
@@ -763,6 +767,33 @@ func (e *envB) ops(n *explore.Node) []explore.Op {
 			})
 		}
 	}
+	// re-submission: a validator that already attested hands its evidence in
+	// again (the same proof, or a corrected one); the chain keeps one piece of
+	// evidence per validator, the ghost keeps the set of distinct attesters.
+	if g0.Resubs < e.maxResubs {
+		for i, v := range w.Vals {
+			if g0.Supplied[i] == "" {
+				continue
+			}
+			other := "B"
+			if g0.Supplied[i] == "B" {
+				other = "A"
+			}
+			for _, proof := range []string{g0.Supplied[i], other} {
+				i, v, proof := i, v, proof
+				add(fmt.Sprintf("ReEv(v%d,%s)", i, proof), false, func(ctx *sdk.Context, g *ghostB) *explore.Fail {
+					ok, f := deliver(ctx, v, world.Evidence(v, e.queue, g.MsgID, &evmtypes.SmartContractExecutionErrorProof{ErrorMessage: "boom-" + proof}))
+					if f != nil || !ok {
+						return orHarness(f, "re-submitted evidence rejected")
+					}
+					g.Supplied[i] = proof
+					g.Resubs++
+					counters["B_resubmissions"]++
+					return nil
+				})
+			}
+		}
+	}
 	add("Prune", true, func(ctx *sdk.Context, g *ghostB) *explore.Fail {
 		mm := e.message(*ctx, g.MsgID)
 		// suppliers as the chain recorded them must agree with the ghost
@@ -823,7 +854,13 @@ func (e *envB) ops(n *explore.Node) []explore.Op {
 		if len(newly) > 0 {
 			counters["B_prunes_that_jailed"]++
 		}
-		cases[fmt.Sprintf("B|"+e.name+"|data=%s|est=%v|suppliers=%v|votes=%s|%s|gone=%v|jailed=%v", g.Data, g.Estimated, sup, votes, frac, gone, newly)] = struct{}{}
+		if g.Resubs > 0 {
+			counters["B_prunes_after_resubmission"]++
+			if below && votes.Sign() > 0 {
+				counters["B_prunes_after_resubmission_below_10pct"]++
+			}
+		}
+		cases[fmt.Sprintf("B|"+e.name+"|resubs=%d|data=%s|est=%v|suppliers=%v|votes=%s|%s|gone=%v|jailed=%v", g.Resubs, g.Data, g.Estimated, sup, votes, frac, gone, newly)] = struct{}{}
 		for i := range before {
 			if !before[i] && after[i] && g.Supplied[i] != "" {
 				return explore.Failf("B-supplier-jailed", "prune of message %d (data=%q, estimate elected=%v, evidence by %v = %s of %s shares) jailed v%d, which supplied evidence", g.MsgID, g.Data, g.Estimated, sup, votes, total, i)
